@@ -21,6 +21,10 @@ FIELD_SRC = {'fee': r'\.fee$', 'height': r'\.height$', 'number': r'\.inscription
 
 def run(ctx):
   F = ctx.facts
+
+  ctx.rule('R18.3', 'pagination (sibling rule over every body that takes page_size + 1 rows): `more` is decided by a strict `rows > page_size`, and exactly then the extra row is popped — '
+           'a page that holds exactly page_size rows is the last one')
+  _r18_3(ctx)
   ctx.rule('R18.1', 'every Index::get_transaction(x.outpoint.txid) for a stored location x, in the explorer handlers and the Index methods they call, is dominated by guards excluding both the unbound and the null outpoint '
            '(Index::is_special_outpoint(x.outpoint) == false, or both comparisons)')
   ctx.rule('R18.2', 'api::Inscription, api::InscriptionRecursive and api::RelativeInscriptionRecursive literals take fee, height, number, sat, timestamp from the entry field of that name, satpoint from the stored satpoint and output from that same satpoint\'s outpoint')
@@ -97,3 +101,38 @@ MUTANTS = [{'name': 'sat-handler-checks-unbound-only', 'file': 'src/subcommand/s
 
 # behaviour-preserving edits (thorough tier): the rules must stay silent on every one of them
 NEUTRAL = [{'name': 'sat handler: both pseudo-outpoints compared explicitly', 'file': 'src/subcommand/server.rs', 'old': '        if Index::is_special_outpoint(satpoint.outpoint) {\n          None\n        } else {\n          let tx = index', 'new': '        if satpoint.outpoint == unbound_outpoint() || satpoint.outpoint == OutPoint::null() {\n          None\n        } else {\n          let tx = index'}]
+
+
+def _r18_3(ctx):
+  import re as _re
+  from ..panics import guard_strings
+  F = ctx.facts
+  n = 0
+  for b in F.bodies.values():
+    if not (b.file in ('src/index.rs', 'src/subcommand/server.rs')) or '::tests::' in b.n:
+      continue
+    takes = [c for c in b.calls if c.is_('std::iter::Iterator::take')]
+    plus1 = [c for c in takes if any(o.kind == 'call' and o.call.is_('re:::saturating_add$') and b.const_of(o.call.args[1]) == 1 for o in deep_origins_(b, c.args[1]))]
+    pops = [c for c in b.calls if c.is_('re:Vec.*::pop$')]
+    if not plus1 or not pops:
+      continue
+    ctx.analysed(b)
+    for pc in pops:
+      n += 1
+      gs = guard_strings(b, pc.bb, forms=True)
+      strict = [g for g in gs if _re.match(r'^Gt\(.*len\(.*\).*\)==True$', g) or _re.match(r'^Gt\(.*(len|try_from).*,.*\)==True$', g)]
+      loose = [g for g in gs if _re.match(r'^Ge\(.*len\(.*\).*\)==True$', g) and not any(g.replace('Ge(', 'Gt(') == x for x in gs)]
+      ctx.ob('R18.3', b.n, 'the extra row is popped exactly when rows > page_size (strict)', bool(strict) and not _only_loose(gs), f'{[g[:90] for g in gs][-3:]}', where(b, pc.line))
+  ctx.floor('R18.3', 'paginated bodies (take(page_size + 1) … pop)', n, 6)
+
+
+def deep_origins_(b, op):
+  from .common import deep_origins
+  return deep_origins(b, op, all_args=True)
+
+
+def _only_loose(gs):
+  """the deciding comparison is >= rather than > : no Gt form of a length test is among the equivalent spellings"""
+  import re as _re
+  has_len = [g for g in gs if 'len(' in g and g.endswith('==True')]
+  return bool(has_len) and not any(g.startswith('Gt(') and 'len(' in g.split(',')[0] or (g.startswith('Lt(') and 'len(' in g.split(',', 1)[-1]) for g in has_len)
